@@ -8,7 +8,7 @@ parts <= i* -- otherwise `same(1, True)` for `same(x: T, y: T)` solves T twice, 
 and the merge silently keeps the last answer.
 
 Rule: in every loop of the checker that (a) binds `s` from a `….check(part, EXPECTED, …)` call
-and (b) merges it into an accumulator `S` (`S |= s` / `S = S | s` / `S.update(s)`), the
+and (b) merges it into an accumulator `S` (`S |= s` / `S = S | s` / `S.update(s)` / `S = f(S, s)`), the
 expression EXPECTED -- after propagating names bound inside the loop body -- must read `S`
 (typically `ty.substitute(S)`), or `S` itself must be an argument of the check call.  An
 EXPECTED that was computed before the loop (or zipped in from a list computed before the loop)
@@ -45,6 +45,9 @@ def run(ctx: Ctx) -> None:
                 elif isinstance(n, ast.Assign) and len(n.targets) == 1 and isinstance(n.targets[0], ast.Name) and isinstance(n.value, ast.BinOp) \
                         and isinstance(n.value.op, ast.BitOr) and isinstance(n.value.left, ast.Name) and n.value.left.id == n.targets[0].id and isinstance(n.value.right, ast.Name):
                     merges.append((n.targets[0].id, n.value.right.id))
+                elif isinstance(n, ast.Assign) and len(n.targets) == 1 and isinstance(n.targets[0], ast.Name) and n.targets[0].id in _names(n.value):
+                    # S = merge(S, s) / S = resolve(S | s): any re-binding of S computed from S and s
+                    merges.extend((n.targets[0].id, x) for x in sorted(_names(n.value) - {n.targets[0].id}))
                 elif isinstance(n, ast.Call) and isinstance(n.func, ast.Attribute) and n.func.attr == "update" and isinstance(n.func.value, ast.Name) \
                         and len(n.args) == 1 and isinstance(n.args[0], ast.Name):
                     merges.append((n.func.value.id, n.args[0].id))
